@@ -511,7 +511,24 @@ func c01Finish(m *core.Merged) {
 		ok := true
 		var badIdx uint64
 		var badVal uint64
-		for i := uint64(0); i < uint64(n); i++ {
+		start := uint64(0)
+		if width < 32 {
+			// packed fields: compare whole 32-bit words against the pattern
+			per := uint64(32 / width)
+			var pat uint32
+			for k := uint64(0); k < per; k++ {
+				pat |= uint32(c0) << (uint(k) * width)
+			}
+			full := uint64(n) / per
+			wi := uint64(0)
+			for ; wi < full; wi++ {
+				if words[wi] != pat {
+					break
+				}
+			}
+			start = wi * per // the first mismatching word (or the tail) is examined field by field
+		}
+		for i := start; i < uint64(n); i++ {
 			if v := getField(words, i, width); v != c0 {
 				ok = false
 				badIdx, badVal = i, v
